@@ -22,9 +22,17 @@ TC = np.linspace(0.02, 0.30, 15)
 MACH = np.array([0.1, 0.2, 0.3, 0.4, 0.5, 0.6, 0.7, 0.75, 0.8, 0.84, 0.9, 0.94])
 
 
-def wing(sweep_deg, sym, nx=2, ny=5, cos_y=0.0, span=10.0, chord=1.3):
+def wing(sweep_deg, sym, nx=2, ny=5, cos_y=0.0, span=10.0, chord=1.3, cluster=None):
     nyf = ny if not sym else 2 * ny - 1
     m = gen.rect_full(nx, nyf, span=span, chord=chord, cos_y=cos_y)
+    if cluster:
+        # strongly graded stations: |y| = b/2 * t^5 ("root") or b/2 * (1 - (1-t)^5) ("tip"): the narrowest panel is ~1e-3 chords
+        # wide, the widest several chords; chordwise nodes graded the same way
+        t = np.abs(m[0, :, 1]) / (0.5 * span)
+        t = t**5 if cluster == "root" else 1 - (1 - t) ** 5
+        m[:, :, 1] = (np.sign(m[0, :, 1]) * 0.5 * span * t)[None, :]
+        xi = np.linspace(0, 1, nx) ** 3
+        m[:, :, 0] = chord * xi[:, None]
     m[:, :, 0] += np.abs(m[:, :, 1]) * np.tan(np.radians(sweep_deg))
     return m[:, :ny].copy() if sym else m
 
@@ -176,9 +184,10 @@ def part_res(s):
     nxs = [2, 3, 5]
     nys = [3, 5, 7, 9, 11] if s.get("tier") == "thorough" else [3, 5, 7, 11]
     out = []
-    for nx, ny, cs in itertools.product(nxs, nys, [0.0, 1.0]):
+    # spanwise / chordwise spacing: uniform, cosine, and strongly graded towards the root or the tip (sliver panels)
+    for nx, ny, cs in itertools.product(nxs, nys, [0.0, 1.0, "root", "tip"]):
         nyh = (ny + 1) // 2 if s["sym"] else ny
-        m = wing(s["sweep"], s["sym"], nx=nx, ny=nyh, cos_y=cs)
+        m = wing(s["sweep"], s["sym"], nx=nx, ny=nyh, cos_y=cs if not isinstance(cs, str) else 0.0, cluster=cs if isinstance(cs, str) else None)
         p = drag_problem(m, s["sym"], k_lam=s["k_lam"])
         out.append(ev(p, re=2e6, Mach_number=0.84, CL=0.5, t_over_c=np.full(m.shape[1] - 1, 0.12)))
     out = np.array(out)
